@@ -1,5 +1,69 @@
-import Arp.Model.Arith
-import Arp.Spec.Ops
+import Arp.Props.C01
+import Batteries.Tactic.Alias
+/-!
+# C03 — zeros, infinities and NaN follow the IEEE-754 rules in the four basic operations
+
+`Arp.C01.add_correct … div_correct` already cover operands of every category (the
+right-hand sides `Spec.add/sub/mul/div` ARE the IEEE table, written from the property
+text).  This file restates the table clause by clause, in the property's own words.
+All clauses hold for every format and every rounding mode; the table clauses need no
+canonicity hypothesis at all.
+-/
 namespace Arp.C03
-theorem smoke : (1:Nat) + 1 = 2 := rfl
+open Arp.C01
+
+/-- any operation with a NaN operand returns NaN -/
+theorem nan_operand (a b : Flt) (rm : RM) (h : a.cat = .nan ∨ b.cat = .nan) :
+    (addWithRm a b rm).toRes = .nan ∧ (subWithRm a b rm).toRes = .nan ∧
+    (mulWithRm a b rm).toRes = .nan ∧ (divWithRm a b rm).toRes = .nan :=
+  ⟨(add_nan a b rm h).1, (add_nan a b rm h).2, mul_nan a b rm h, div_nan a b rm h⟩
+
+/-- inf − inf and inf + (−inf) are NaN -/
+theorem inf_minus_inf (a b : Flt) (rm : RM) (ha : a.cat = .inf) (hb : b.cat = .inf) :
+    (a.sign = b.sign → (subWithRm a b rm).toRes = .nan) ∧
+    (a.sign ≠ b.sign → (addWithRm a b rm).toRes = .nan) := inf_sub_inf_nan a b rm ha hb
+
+/-- 0 · inf is NaN -/
+theorem zero_times_inf (a b : Flt) (rm : RM)
+    (h : (a.cat = .zero ∧ b.cat = .inf) ∨ (a.cat = .inf ∧ b.cat = .zero)) :
+    (mulWithRm a b rm).toRes = .nan := zero_mul_inf_nan a b rm h
+
+/-- 0/0 and inf/inf are NaN -/
+theorem zero_div_zero (a b : Flt) (rm : RM) (ha : a.cat = .zero) (hb : b.cat = .zero) :
+    (divWithRm a b rm).toRes = .nan := div_zero_zero_nan a b rm ha hb
+theorem inf_div_inf (a b : Flt) (rm : RM) (ha : a.cat = .inf) (hb : b.cat = .inf) :
+    (divWithRm a b rm).toRes = .nan := div_inf_inf_nan a b rm ha hb
+
+/-- finite / 0 is the infinity whose sign is the exclusive-or -/
+theorem finite_div_zero (a b : Flt) (rm : RM) (ha : a.cat = .normal) (hb : b.cat = .zero) :
+    (divWithRm a b rm).toRes = .inf (a.sign ^^ b.sign) := finite_div_zero_inf a b rm ha hb
+
+/-- finite / inf is the zero whose sign is the exclusive-or -/
+theorem finite_div_inf (a b : Flt) (rm : RM) (ha : a.cat = .zero ∨ a.cat = .normal)
+    (hb : b.cat = .inf) : (divWithRm a b rm).toRes = .zero (a.sign ^^ b.sign) :=
+  finite_div_inf_zero a b rm ha hb
+
+/-- products involving a zero (and no infinity/NaN) are the zero with the xor sign -/
+alias product_with_zero := mul_zero_sign
+/-- products involving an infinity (and no zero/NaN) are the infinity with the xor sign -/
+alias product_with_inf := mul_inf_sign
+/-- 0 / finite is the zero with the xor sign; inf / finite the infinity with the xor sign -/
+alias zero_div_finite := zero_div_finite_zero
+alias inf_div_finite := inf_div_finite_inf
+
+/-- inf combined with a finite value in a sum/difference gives the infinity's sign -/
+alias sum_with_inf := add_inf_finite
+/-- like-signed infinities add to that infinity -/
+alias inf_plus_inf := inf_add_inf
+
+/-- a sum that is exactly zero is +0 in every mode except Negative, where it is −0 -/
+alias exact_zero_sum := exact_zero_sum_sign
+alias exact_zero_difference := exact_zero_diff_sign
+/-- sums of like-signed zeros keep their sign -/
+alias like_signed_zero_sum := like_signed_zeros
+
+/-- non-vacuity: FP16 `1.0 - 1.0` under `Negative` is `-0`, under nearest-even `+0` -/
+example : (subWithRm ⟨FP16, false, 0, 1024, .normal⟩ ⟨FP16, false, 0, 1024, .normal⟩ .neg).toRes = .zero true := by decide
+example : (subWithRm ⟨FP16, false, 0, 1024, .normal⟩ ⟨FP16, false, 0, 1024, .normal⟩ .nte).toRes = .zero false := by decide
+
 end Arp.C03
